@@ -371,7 +371,7 @@ class TargetTranslation(Facet):
         return (150, 2) if tier == "quick" else (1000, 8)
 
     def strategy(self, tier):
-        dist = st.sampled_from([0.0, 0.0, 1e-7, 1e-6, 0.015625, 0.5, 3.0, 64.0])
+        dist = st.sampled_from([0.0, 0.0, 1e-7, 1e-6, 1e-5, 3e-5, 2.5e-4, 5e-4, 2e-3, 6e-3, 0.015625, 0.5, 3.0, 64.0])
         return st.builds(
             lambda ds, alg, below, cap: {"distances": ds, "alg": alg, "below": below, "cap": cap},
             st.lists(dist, min_size=1, max_size=12),
@@ -392,7 +392,8 @@ class TargetTranslation(Facet):
         stops = {}
         w = make_world(11)
         try:
-            for shift in (0.0, 1.0, 1024.0, 1048576.0):
+            # ... nor on how the target NUMBER is written: 0, False and 0.0 are the same target
+            for shift in (0.0, 1.0, 1024.0, 1048576.0, 0, 1, 1024, False, True):
                 calls = []
 
                 def ff(p, shift=shift, calls=calls):
@@ -413,12 +414,12 @@ class TargetTranslation(Facet):
                     rec.discard()
                     rec.label("discarded:" + type(e).__name__)
                     return
-                stops[shift] = len(calls)
+                stops[repr(shift)] = len(calls)
             rec.sample({"distances": ds, "stops": {str(k): v for k, v in stops.items()}}, limit=2)
             if len(set(stops.values())) > 1:
                 rec.fail(
                     "C14/target-fitness/stop-point-depends-on-the-target's-magnitude",
-                    f"distances to the target {ds} ({'from below' if case['below'] else 'from above'}, {case['alg']}): the search stopped after {stops} evaluations for targets 0/1/1024/2**20 - being within tolerance must not depend on the magnitude of the target",
+                    f"distances to the target {ds} ({'from below' if case['below'] else 'from above'}, {case['alg']}): the search stopped after {stops} evaluations for targets 0/1/1024/2**20 written as float, int or bool - being within tolerance must not depend on the magnitude of the target nor on the type of the number it is written as",
                 )
             if min(ds) < 1e-3 and len(ds) >= 3:
                 rec.nontrivial(case)
